@@ -19,6 +19,12 @@ CV_CORE = [
 ]
 
 
+# all five unit costs pairwise distinct, none equal to 1, transfer cheaper than duplication: a table entry that uses the
+# wrong unit cost, or a count instead of a cost, cannot coincide with the right one
+CV_DISTINCT = (2, 7, 5, 4, 3)
+CV_SLOSS3 = (0, 3, 1, 2, 3)
+
+
 def coherent(c):
     """region in which optimisers and evaluator agree (F-COHERENCE, DESIGN 9.1)"""
     return c[0] + 2 * c[4] <= c[1] + 2 * c[3]
